@@ -308,7 +308,10 @@ fn build_native_bundles(
     modules: &std::collections::HashMap<String, LoadedNativeInfo>,
 ) -> Result<Vec<NativeBundle>, String> {
     let mut bundles = Vec::new();
-    for (name, info) in modules {
+    // by module name, not in hash-map order: the bundles are written into the .avbc file
+    let mut ordered: Vec<_> = modules.iter().collect();
+    ordered.sort_by(|a, b| a.0.cmp(b.0));
+    for (name, info) in ordered {
         let bytes = std::fs::read(&info.file_path)
             .map_err(|err| format!("failed to read {}: {}", info.file_path.display(), err))?;
         let checksum = compute_simple_hash(&bytes);
